@@ -152,7 +152,7 @@ func VerifC20Placements() {
 		{vx: vx, id: 2, w: 2, h: 1, uploaded: 1, buf: bytes.NewBuffer(nil)},
 	}
 	pos := [][2]int{{0, 0}, {2, 1}}
-	type shown struct{ id, col, row int }
+	type shown struct{ id, col, row, w, h int }
 	put := func(s shown) string {
 		return fmt.Sprintf("\x1B_Ga=p,i=%d,p=%d,C=1\x1B\\", s.id, uint(s.col)<<16|uint(s.row))
 	}
@@ -171,8 +171,14 @@ func VerifC20Placements() {
 				continue
 			}
 			p := pos[c-1]
+			// the image's size in cells may change between frames (a Resize to another
+			// box): height only, width only or both
+			if i == 0 && zzverif.Param("sizes") == 1 {
+				sz := [][2]int{{1, 1}, {1, 2}, {2, 1}}[zzverif.Choose("cells", 3)]
+				img.w, img.h = sz[0], sz[1]
+			}
 			img.Draw(win.New(p[0], p[1], img.w, img.h))
-			next = append(next, shown{i + 1, p[0], p[1]})
+			next = append(next, shown{i + 1, p[0], p[1], img.w, img.h})
 		}
 		refresh := f == 0 || zzverif.Bool("refresh")
 		if refresh {
@@ -190,14 +196,26 @@ func VerifC20Placements() {
 			return false
 		}
 		okPut, okDel := true, true
+		at := func(l []shown, id int, p [2]int) (shown, bool) {
+			for _, x := range l {
+				if x.id == id && x.col == p[0] && x.row == p[1] {
+					return x, true
+				}
+			}
+			return shown{}, false
+		}
 		for _, id := range []int{1, 2} {
 			for _, p := range pos {
-				s := shown{id, p[0], p[1]}
+				// the sequences name image and position; a size change at the same position is
+				// a change: the old placement is deleted and the new one transmitted
+				s := shown{id: id, col: p[0], row: p[1]}
+				n, inNext := at(next, id, p)
+				l, inLast := at(last, id, p)
 				wantPut, wantDel := 0, 0
-				if has(next, s) && (refresh || !has(last, s)) {
+				if inNext && (refresh || !has(last, n)) {
 					wantPut = 1
 				}
-				if has(last, s) && (refresh || !has(next, s)) {
+				if inLast && (refresh || !has(next, l)) {
 					wantDel = 1
 				}
 				okPut = okPut && strings.Count(out, put(s)) == wantPut
@@ -208,5 +226,22 @@ func VerifC20Placements() {
 		zzverif.Assert(okDel, "placement-deleted-exactly-when-dropped-or-changed")
 		last = next
 	}
+	zzverif.Reach("end")
+}
+
+// VerifC20PartialAlpha: a partially transparent source pixel (non-premultiplied r, g, b free,
+// alpha from a list of levels at and above the transparency threshold) is un-premultiplied
+// back to its own colour: every channel within one step of the source channel (integer
+// rounding), alpha preserved.
+func VerifC20PartialAlpha() {
+	r, g, b := zzverif.Uint8("r"), zzverif.Uint8("g"), zzverif.Uint8("b")
+	a := []uint8{50, 51, 100, 128, 200, 254, 255}[zzverif.Choose("alpha", 7)]
+	gr, gg, gb, ga := toRGB(color.NRGBA{R: r, G: g, B: b, A: a})
+	near := func(got, src uint8) bool {
+		d := int(got) - int(src)
+		return d >= -1 && d <= 1
+	}
+	zzverif.Assert(near(gr, r) && near(gg, g) && near(gb, b), "partially-transparent-pixel-keeps-its-colour")
+	zzverif.Assert(ga == a, "alpha-preserved")
 	zzverif.Reach("end")
 }
